@@ -11,7 +11,7 @@ import types
 import re as _re
 
 from . import core, values, symre
-from .values import SymStr, SymChar, SymInt, lift, ProxyLeak
+from .values import SymStr, SymChar, SymInt, SymBytes, lift, ProxyLeak
 
 _real_isinstance = builtins.isinstance
 _real_str = builtins.str
@@ -46,7 +46,9 @@ def sx_hex(v, upper=True, maxdigits=6):
     n = 1
     while n < maxdigits and not p.fork(v < 16 ** n):
         n += 1
-    return SymStr([SymChar(hexdigit((v / (16 ** k)) % 16, upper)) for k in range(n - 1, -1, -1)])
+    if p.fork(v < 0):
+        raise ProxyLeak("hex rendering of a negative symbolic int")
+    return SymStr([SymChar(hexdigit(d, upper)) for d in values.digits(v, 16, n, "hx")])
 
 
 def sx_dec(v, maxdigits=8):
@@ -56,7 +58,7 @@ def sx_dec(v, maxdigits=8):
     n = 1
     while n < maxdigits and not p.fork(v < 10 ** n):
         n += 1
-    return SymStr([SymChar(48 + (v / (10 ** k)) % 10) for k in range(n - 1, -1, -1)])
+    return SymStr([SymChar(48 + d) for d in values.digits(v, 10, n, "dc")])
 
 
 def sx_repr(a):
@@ -115,6 +117,8 @@ def sx_repr_str(s):
 def sx_str(x=""):
     if _real_isinstance(x, SymStr):
         return x
+    if _real_isinstance(x, SymBytes):
+        return x.bytes_repr()
     if _real_isinstance(x, SymInt):
         return sx_dec(x.e)
     return _real_str(x)
@@ -131,9 +135,11 @@ class _StrMeta(type):
 class sx_strtype(metaclass=_StrMeta):
     """shadows the name `str` inside instrumented modules"""
 
-    def __new__(cls, x="", *a):
-        if a:
-            return _real_str(x, *a)
+    def __new__(cls, x="", *a, **k):
+        if a or k:
+            if _real_isinstance(x, SymBytes):
+                return x.decode(*a, **k)
+            return _real_str(x, *a, **k)
         return sx_str(x)
 
     join = _real_str.join
@@ -245,6 +251,9 @@ def _has_idkeys(d):
 
 
 def _find_key(d, key):
+    if _real_isinstance(key, SymInt) and len(d) > 8 and all(type(k) is _real_int for k in d):
+        hit = values.select_int(key.e, sorted(d))
+        return _MISSING if hit is None else hit
     for k in list(d.keys()):
         if key_eq(k, key):
             return k
@@ -388,6 +397,12 @@ def sx_callm(obj, name, *args, **kw):
 def sx_isinstance(x, t):
     if _real_isinstance(x, SymStr):
         if t is _real_str or t is sx_strtype:
+            return True
+        if type(t) is tuple:
+            return any(sx_isinstance(x, u) for u in t)
+        return False
+    if _real_isinstance(x, SymBytes):
+        if t is bytes:
             return True
         if type(t) is tuple:
             return any(sx_isinstance(x, u) for u in t)
